@@ -268,9 +268,13 @@ class StereoCondensedReactionGraph(StereoMolGraph, CondensedReactionGraph):
                      defaults to True
         :return: Returns the relabeled graph or None if copy is False
         """
-        relabeled_scrg = self.__class__(
-            super().relabel_atoms(mapping, copy=copy)
-        )
+        if copy is True:
+            relabeled_scrg = self.__class__(
+                super().relabel_atoms(mapping, copy=True)
+            )
+        else:
+            super().relabel_atoms(mapping, copy=False)
+            relabeled_scrg = self
 
         atom_stereo_change: defaultdict[AtomId, ChangeDict[AtomStereo]] = (
             defaultdict(ChangeDict[AtomStereo])
@@ -286,7 +290,9 @@ class StereoCondensedReactionGraph(StereoMolGraph, CondensedReactionGraph):
                     ),
                     atom_stereo.parity,
                 )
-                atom_stereo_change[mapping[atom]][stereo_change] = new_stereo
+                atom_stereo_change[mapping.get(atom, atom)][
+                    stereo_change
+                ] = new_stereo
 
         bond_stereo_change: defaultdict[Bond, ChangeDict[BondStereo]] = (
             defaultdict(ChangeDict[BondStereo])
@@ -296,7 +302,7 @@ class StereoCondensedReactionGraph(StereoMolGraph, CondensedReactionGraph):
             for stereo_change, bond_stereo in stereo_change_dict.items():
                 if bond_stereo is None:
                     continue
-                new_bond = Bond(mapping[a] for a in bond)
+                new_bond = Bond(mapping.get(a, a) for a in bond)
                 new_stereo = bond_stereo.__class__(
                     tuple(
                         mapping.get(atom, atom) for atom in bond_stereo.atoms
